@@ -68,6 +68,12 @@ class BorrowSpec:
     def close(self):
         self.closed = True
 
+    def throw(self, exc):
+        # forwarded to the underlying iterator while the handle is open (by design); a closed handle only re-raises
+        if self.closed or not hasattr(self.underlying, "throw"):
+            raise exc
+        return self.underlying.throw(exc)
+
 
 def borrow(iterator):
     return BorrowSpec(iterator)
